@@ -28,3 +28,13 @@ pub proof fn lemma_payload_mono(ops: Seq<OpV>, i: int, j: int, comp: Compression
         assert(payload(ops, j - 1, comp, thr).is_prefix_of(payload(ops, j, comp, thr)));
     }
 }
+/// what the End marker's checksum of a batch is computed over: Writer::write_batch / write_raw / write_clear feed the hasher
+/// exactly payload(ops) (their loop invariant `hasher.acc@ == payload(..)`, proved in U-WRITER), never the Start marker
+pub open spec fn checksum_input(seqno: u64, ops: Seq<OpV>, comp: CompressionType, thr: usize) -> Seq<u8> { payload(ops, ops.len() as int, comp, thr) }
+/// L-COVER (C15), per field: a field of a batch is protected against alteration only if the checksum input determines it.
+/// For the batch's seqno this does NOT hold (finding D6): two batches that differ only in the seqno of the Start marker
+/// carry the same checksum, so an altered seqno is read back as different data
+pub proof fn lemma_cover_seqno(s1: u64, s2: u64, ops: Seq<OpV>, comp: CompressionType, thr: usize)
+    requires s1 != s2,
+    ensures checksum_input(s1, ops, comp, thr) != checksum_input(s2, ops, comp, thr), // [C15:L-COVER-seqno-covered-by-the-batch-checksum]
+{}
